@@ -420,6 +420,22 @@ func (rt *runner) importVerify(archive []byte, sel selection, stage string, vf f
 	return outcome{}
 }
 
+// untypedBody tells whether a manifest body is an image manifest whose type can only
+// come from the descriptor that lists it: no mediaType field and no layers (with a
+// layer the type is detectable from the layer media type).
+func untypedBody(body []byte) bool {
+	pm, err := rm.ParseManifest(body)
+	if err != nil || pm.MediaType != "" || pm.IsIndex || pm.SchemaV != 2 {
+		return false
+	}
+	for _, rf := range pm.Refs {
+		if rf.Kind == "layer" {
+			return false
+		}
+	}
+	return true
+}
+
 func closureNodes(g *imggen.Graph) []*imggen.Node {
 	var out []*imggen.Node
 	for _, id := range g.ManifestClosure(g.Root) {
@@ -675,6 +691,20 @@ func checkRoundTrip(c Case, ev *evid.Collector) *evid.Violation {
 			finish("export-error-unsupported", false)
 			return nil
 		}
+		if c.SrcKind == "layout" && strings.Contains(err.Error(), "unsupported media type") {
+			for _, n := range closureNodes(g) {
+				if n.ID != root.ID && n.Kind == "image" && untypedBody(n.Body) {
+					v := evid.V("export-layout-nested-manifest-without-mediatype", "ImageExport(%s) from an OCI layout fails on the nested image manifest %s, which has no mediaType field and no layers "+
+						"(legal OCI; its type is given by the index descriptor that lists it): %s", ss, n.Digest, short(err))
+					finish("export-error", true)
+					if ev.IsKnown(v.Sig) {
+						ev.Report(v, c)
+						return nil
+					}
+					return v
+				}
+			}
+		}
 		finish("export-error", false)
 		return evid.V("export-error", "ImageExport(%s) of a graph without schema1 / artifact-manifest / foreign-layer content failed: %s", ss, short(err))
 	}
@@ -900,7 +930,12 @@ func checkRoundTrip(c Case, ev *evid.Collector) *evid.Violation {
 					vf = verifyMain(sel.tag)
 				}
 			}
-			return rt.importVerify(vraw, sel, label, vf)
+			o := rt.importVerify(vraw, sel, label, vf)
+			if m := v.Multi; m != nil && m.By == "digest" && !m.PickDecoy && o.importErr != nil && untypedBody(root.Body) {
+				o.v = evid.V("import-by-digest-manifest-without-mediatype", "%s: selecting %s by the digest of the target ref in a multi-image archive; the manifest has no mediaType field and no layers, "+
+					"its type is given by the index.json descriptor: %s", label, root.Digest, short(o.importErr))
+			}
+			return o
 		}
 		for round := 0; ; round++ {
 			label := fmt.Sprintf("variant %d [%s]", vi, strings.Join(cur.features(names), "+"))
